@@ -448,6 +448,10 @@ pub struct Heap {
   /// verification hook: log of GC-relevant API calls, drained by the harness
   #[cfg(samlang_verif)]
   pub verif_log: Vec<verif_hooks::HeapCall>,
+  /// Verification hook (C12): `('c', start, verif_log.len())` for every `create_temp_counter`,
+  /// `('s', counter value, verif_log.len())` for every `sync_temp_counter`.
+  #[cfg(samlang_verif)]
+  pub verif_counter_log: std::sync::Mutex<Vec<(char, u32, usize)>>,
 }
 
 impl Heap {
@@ -462,6 +466,8 @@ impl Heap {
       sweep_index: 0,
       #[cfg(samlang_verif)]
       verif_log: Vec::new(),
+      #[cfg(samlang_verif)]
+      verif_counter_log: std::sync::Mutex::new(Vec::new()),
     };
     heap.alloc_module_reference(Vec::new()); // Root
     let dummy_parts = vec![PStr::DUMMY_MODULE];
@@ -512,10 +518,18 @@ impl Heap {
   }
 
   pub fn create_temp_counter(&self) -> TempPStrCounter {
+    #[cfg(samlang_verif)]
+    self.verif_counter_log.lock().unwrap().push((
+      'c',
+      self.str_pointer_table.len() as u32,
+      self.verif_log.len(),
+    ));
     TempPStrCounter::new(self.str_pointer_table.len() as u32)
   }
 
   pub fn sync_temp_counter(&mut self, counter: &TempPStrCounter) {
+    #[cfg(samlang_verif)]
+    self.verif_counter_log.lock().unwrap().push(('s', counter.current(), self.verif_log.len()));
     let target = counter.current() as usize;
     while self.str_pointer_table.len() < target {
       self.str_pointer_table.push(StringStoredInHeap::Permanent(""));
